@@ -383,6 +383,11 @@ C20PrefixStep == (pc = "eval" /\ pc' # "eval" /\ cfg.prefixRef) =>
                     /\ evals' <= Len(ref)
                     /\ ref[evals'] = <<val, new'>>
 C20Prefix == [][C20PrefixStep]_vars
+(* C11 (the part that concerns the optimiser): a run started from a state  *)
+(* that was written to JSON and read back repeats, evaluation by            *)
+(* evaluation, the run started from the state itself.                       *)
+C11Same == [][C20PrefixStep]_vars
+C11SameDone == (pc = "done" /\ cfg.prefixRef /\ cfg.sameLength) => evals = Len(ref)
 C20Terminates == <>(pc \in {"done", "panic"})
 
 TypeOK ==
